@@ -90,6 +90,9 @@ struct World {
     last_sel: Option<usize>,
     client: Option<SocketAddr>,
     listener: tokio::net::UdpSocket,
+    /// the local SRT endpoint: owns its port, so what the sender returns to the client can
+    /// never land on a receiver-side socket
+    client_sock: StdUdp,
     instant_tx: vh::InstantForwarder,
     _instant_rx: tokio::sync::mpsc::UnboundedReceiver<(SocketAddr, SmallVec<u8, 64>)>,
     packet_tx: tokio::sync::mpsc::UnboundedSender<UplinkPacket>,
@@ -150,13 +153,15 @@ async fn build_world(inits: &[LinkInit], now: u64, cfg: ConfigSnapshot, case_no:
         rx.push(r);
     }
     let listener = tokio::net::UdpSocket::bind("127.0.0.1:0").await?;
+    let client_sock = StdUdp::bind("127.0.0.1:0")?;
+    client_sock.set_nonblocking(true)?;
     let (instant_tx, _instant_rx) = tokio::sync::mpsc::unbounded_channel();
     let (packet_tx, _packet_rx) = vh::create_uplink_channel();
     let mut reg = SrtlaRegistrationManager::new();
     reg.has_connected = true;
     Ok(World {
         conns, conn_io, rx, has_io, reg, tracker: SequenceTracker::new(), last_sel: None, client: None,
-        listener, instant_tx, _instant_rx, packet_tx, _packet_rx, readers: HashMap::new(), all_failed_at: None,
+        listener, client_sock, instant_tx, _instant_rx, packet_tx, _packet_rx, readers: HashMap::new(), all_failed_at: None,
         critical: srtla_core::priority::CriticalWindow::new(), cfg,
     })
 }
@@ -167,6 +172,7 @@ impl World {
     fn drain(&self) -> Vec<Vec<Vec<u8>>> {
         let mut out = vec![];
         let mut buf = vec![0u8; 2048];
+        while self.client_sock.recv(&mut buf).is_ok() {}
         for r in &self.rx {
             let mut v = vec![];
             let mut idle = 0;
@@ -281,7 +287,7 @@ async fn do_client(w: &mut World, enc: &mut Enc, run: &mut Run, now: u64, pkt: &
     let installed = install_scripts(w, plan);
     let mut buf = vec![0u8; 1500];
     buf[..pkt.len()].copy_from_slice(pkt);
-    let src: SocketAddr = "127.0.0.1:40001".parse().unwrap();
+    let src: SocketAddr = w.client_sock.local_addr().unwrap();
     vh::handle_srt_packet(Ok((pkt.len(), src)), &mut buf, &mut w.conns, &w.conn_io, &mut w.last_sel, &mut w.tracker,
                           &mut w.client, reg, &w.cfg, &w.critical).await;
     let orc = consumed_scripts(&installed, run);
